@@ -26,6 +26,35 @@ OrderDependent(ev) == /\ ev.k = "path"
 RECURSIVE Intended(_)
 Intended(items) == ParseItems([i \in 1..Len(items) |-> IF items[i].k = "grp" THEN Atom(Intended(items[i].g)) ELSE items[i]])
 IsEq(ev) == ev.k = "eq" \/ ev.k = "txt"
+
+\* ---- structure law: the re-parsed script has the tree of the original (for "txt": both parses have the tree the text
+\* denotes). ev.to / ev.tr are projections of the original / re-parsed script's program (harness shapeOf; op "?" = not
+\* available). Normalisations: parenthesis groups "(" are transparent, "~=" is "=~", a regex source is compared modulo the
+\* backslash the printer puts before a slash, numbers by value (2.0 prints as 2), list constants and sub-paths only by kind.
+\* Judged for trees of binary operators (the program does not delimit the operand of "!" and of functions reliably).
+RECURSIVE NormRx(_)
+NormRx(p) == IF Len(p) = 0 THEN <<>>
+             ELSE IF p[1] = 92 /\ Len(p) >= 2 THEN (IF p[2] = 47 THEN <<47>> ELSE <<p[1], p[2]>>) \o NormRx(SubSeq(p, 3, Len(p)))
+             ELSE <<p[1]>> \o NormRx(Tail(p))
+LeafEq(fv, av) ==
+    IF fv.t \in {"list", "other"} \/ av.t = "arr" THEN TRUE
+    ELSE IF fv.t = "rx" /\ av.t = "rx" THEN NormRx(fv.p) = NormRx(av.p)
+    ELSE IF IsNum(fv) /\ IsNum(av) THEN (IF Modelled(fv) /\ Modelled(av) THEN NumCmp(fv, av) = 0
+                                         ELSE fv.t = av.t /\ "s" \in DOMAIN fv /\ "s" \in DOMAIN av /\ fv.s = av.s)
+    ELSE DeepEq(fv, av)
+IsLeaf(e) == e.op \in {"const", "path"}
+RECURSIVE AllBinary(_)
+AllBinary(a) == IsLeaf(a) \/ (a.op \notin {"!", "length", "count"} /\ AllBinary(a.l) /\ AllBinary(a.r))
+OpNorm(o) == IF o = "~=" THEN "=~" ELSE o
+RECURSIVE SameShape(_, _)
+SameShape(f, a) == IF f.op = "(" THEN SameShape(f.l, a)
+                   ELSE IF IsLeaf(a) THEN f.op = a.op /\ (a.op = "path" \/ LeafEq(f.v, a.v))
+                   ELSE IF IsLeaf(f) THEN FALSE
+                   ELSE OpNorm(f.op) = a.op /\ "r" \in DOMAIN f /\ SameShape(f.l, a.l) /\ SameShape(f.r, a.r)
+TargetTree(ev) == IF ev.k = "eq" THEN ev.ast ELSE Intended(ev.case.items)
+ShapeBroken(ev) == /\ IsEq(ev) /\ AllBinary(TargetTree(ev))
+                   /\ \/ (ev.tr.op # "?" /\ ~SameShape(ev.tr, TargetTree(ev)))
+                      \/ (ev.to.op # "?" /\ ~SameShape(ev.to, TargetTree(ev)))
 ModelSays(ev) == IF ev.k = "eq" THEN Expect(ev.ast, ev.elem, ev.elem)
                  ELSE IF ev.k = "txt" THEN Expect(Intended(ev.case.items), ev.elem, ev.elem)
                  ELSE "ANY"
@@ -33,6 +62,7 @@ Verdict14(ev) ==
     IF ev.perr = 2 THEN "printer-panics"
     ELSE IF ev.perr = 1 THEN "does-not-parse"
     ELSE IF ev.s2 # ev.s1 THEN "prints-differently"
+    ELSE IF ShapeBroken(ev) THEN "structure-differs"
     \* ALLOW: when the re-parsed expression is structurally identical to the original (a Go fact: reflect.DeepEqual),
     \* a different result is not caused by the text form (Expr.Get on several descents depends on map order: C05)
     \* ALLOW: an original whose repeated evaluation on the same data gives several results (Expr.Get through a wildcard
